@@ -5,6 +5,7 @@
 import Lessm.Model.Color
 import Lessm.Model.Builtins
 import Lessm.Model.Guard
+import Lessm.Model.ExprGen
 
 open Lessm
 
@@ -58,6 +59,12 @@ def handle (op : String) (payload : String) : String :=
           | some (v, u) => Num.ratStr v ++ " " ++ String.ofList u
           | none => "none"
       | none => "bad-op"
+  | "c04.eval", ws =>
+      match Expr.evalText ws with
+      | some (.ok v u) => Num.ratStr v ++ " " ++ u
+      | some .zeroDiv => "zerodiv"
+      | some .literalZeroSlash => "literal0slash"
+      | none => "none"
   | _, _ =>
     -- payloads whose fields may contain spaces are separated by U+001F
     match op, payload.splitOn "\x1f" with
